@@ -54,8 +54,8 @@ theorem bufBound_of_noFlush (cfg : Cfg) (bs : Nat) (es : List Entry)
     · simp at h2; omega
 
 theorem goodBlock_of_bound (cfg : Cfg) (bs : Nat) (hP : Params cfg bs) (es : List Entry)
-    (hb : BufBound cfg bs es) (he : ∀ e ∈ es, EntryOK e) : GoodBlock es := by
-  refine ⟨fun e h => (he e h).1, ?_, ?_⟩
+    (hb : BufBound cfg bs es) (he : ∀ e ∈ es, EntryOK e) (hne : es ≠ []) : GoodBlock es := by
+  refine ⟨fun e h => (he e h).1, ?_, ?_, hne⟩
   · rcases hP.count with hc | hc
     · have := hb.count hc; omega
     · have := sizeSum_ge es he; have := hb.size; omega
@@ -68,7 +68,7 @@ theorem goodBlock_cons (cfg : Cfg) (bs : Nat) (hP : Params cfg bs) (es : List En
     rcases List.mem_cons.mp hm with h | h
     · subst h; exact hx
     · exact he x h
-  refine ⟨fun x h => (hall x h).1, ?_, ?_⟩
+  refine ⟨fun x h => (hall x h).1, ?_, ?_, by simp⟩
   · simp only [List.length_cons]
     rcases hP.count with hc | hc
     · have := hb.count hc; omega
@@ -88,7 +88,8 @@ theorem sizeSum_reverse (es : List Entry) : sizeSum es.reverse = sizeSum es := b
     simp [sizeSum]; omega
 
 theorem goodBlock_reverse (es : List Entry) (h : GoodBlock es) : GoodBlock es.reverse :=
-  ⟨fun e he => h.enc e (List.mem_reverse.mp he), by simpa using h.count, by rw [sizeSum_reverse]; exact h.size⟩
+  ⟨fun e he => h.enc e (List.mem_reverse.mp he), by simpa using h.count, by rw [sizeSum_reverse]; exact h.size,
+    by simpa using h.ne⟩
 
 /-- the open session's own state -/
 structure SessOK (cfg : Cfg) (bs : Nat) (name : Bytes) (s : Sess) : Prop where
@@ -142,7 +143,7 @@ theorem flushSess_ok (cfg : Cfg) (codec : Codec) (crc : Checksum) (bs : Nat) (hP
     simp only [List.isEmpty_cons, Bool.false_eq_true, if_false]
     obtain ⟨⟨hdr, hfile, _, _⟩, hgood⟩ := hF
     have hgb : GoodBlock (e :: t).reverse := by
-      rw [← hbuf]; exact goodBlock_reverse _ (goodBlock_of_bound cfg bs hP s.bufRev hS.below hS.enc)
+      rw [← hbuf]; exact goodBlock_reverse _ (goodBlock_of_bound cfg bs hP s.bufRev hS.below hS.enc (by rw [hbuf]; simp))
     have hbc : (s.blockCount + 1) % 2 ^ 64 < 2 ^ 64 := Nat.mod_lt _ (by decide)
     have hec : (s.entryCount + (e :: t).length % 2 ^ 16) % 2 ^ 64 < 2 ^ 64 := Nat.mod_lt _ (by decide)
     refine ⟨blocks ++ [(e :: t).reverse], ⟨⟨_, ?_, valid_setCounts s.hdr hS.hv _ _ hbc hec, hS.nm⟩, ?_⟩, ?_, by simp, by simp⟩
@@ -190,13 +191,14 @@ theorem csize_of_encodeBlock (codec : Codec) (crc : Checksum) (b : List Entry) (
 /-- on a block area the writer produced, the torn-tail walk reaches the end: nothing is cut -/
 theorem walkEnd_renderBlocks (codec : Codec) (crc : Checksum) (blocks : List (List Entry))
     (hg : ∀ b ∈ blocks, GoodBlock b) :
-    ∀ fuel, blocks.length < fuel → walkEnd fuel (renderBlocks codec crc blocks) = (renderBlocks codec crc blocks).length := by
+    ∀ (z : Bool) fuel, blocks.length < fuel →
+      walkEnd z fuel (renderBlocks codec crc blocks) = (renderBlocks codec crc blocks).length := by
   induction blocks with
-  | nil => intro fuel hf; cases fuel with
+  | nil => intro z fuel hf; cases fuel with
     | zero => omega
     | succ f => simp [renderBlocks, walkEnd, shorterThan]
   | cons b bs ih =>
-    intro fuel hf
+    intro z fuel hf
     cases fuel with
     | zero => omega
     | succ f =>
@@ -209,7 +211,11 @@ theorem walkEnd_renderBlocks (codec : Codec) (crc : Checksum) (blocks : List (Li
       simp only [walkEnd, shorterThan_eq, decide_eq_true_eq, hcs]
       rw [if_neg (by simp [hlen]; omega)]
       rw [if_neg (by simp [List.length_drop, hlen]; omega)]
-      rw [← hlen, drop_append_len _ _ _ rfl, ih hbs f (by simp at hf; omega)]
+      have hne0 : (codec.enc (encodeEntries b)).length ≠ 0 := by
+        have := csize_encodeBlock_ne_zero codec crc b [] hb.size hb.ne
+        rwa [csize_encodeBlock codec crc b [] hb.size] at this
+      rw [if_neg (by simp [hne0])]
+      rw [← hlen, drop_append_len _ _ _ rfl, ih hbs z f (by simp at hf; omega)]
       simp
 
 theorem renderBlocks_length_ge (codec : Codec) (crc : Checksum) (blocks : List (List Entry)) :
@@ -248,7 +254,7 @@ theorem openExisting_ok (cfg : Cfg) (codec : Codec) (crc : Checksum) (bs : Nat) 
     rw [hd]
     simp only
     rw [if_neg (by omega)]
-    have hw := walkEnd_renderBlocks codec crc blocks hgood (file.length / 16 + 1) (by
+    have hw := walkEnd_renderBlocks codec crc blocks hgood cfg.openStopsAtZeroSize (file.length / 16 + 1) (by
       have := renderBlocks_length_ge codec crc blocks
       have : 16 * blocks.length ≤ file.length := by omega
       omega)
